@@ -59,7 +59,10 @@ def run(data):
                 chk("prefixed-quantity-decimal-digits", isinstance(got, Decimal) and abs(got - m * pv) <= abs(m * pv) * Decimal("1e-24"))
                 got2 = ((m * p) * u).unprefixed().magnitude
                 chk("prefix-times-number-decimal-digits", isinstance(got2, Decimal) and abs(got2 - m * pv) <= abs(m * pv) * Decimal("1e-24"))
-            # (p*u)**n is p**n * u**n
+            # (p*u)**n is p**n * u**n -- also when the same power was first asked for with a float exponent (refused)
+            for bad_ in (float(n), float(n) + 0.5):
+                try: (p * u) ** bad_
+                except Exception: pass  # noqa
             lhs, rhs = (p * u) ** n, (p ** n) * (u ** n)
             if same_base: chk("power-distributes", lhs is rhs)
             else: chk("power-distributes~", lhs.factors == rhs.factors and relclose(lhs.prefix.quantify(), rhs.prefix.quantify()))
